@@ -203,6 +203,7 @@ type c37Case struct {
 	MaxBytes  int       `json:"max_bytes"`
 	MaxCount  int       `json:"max_count"`
 	Direct    bool      `json:"direct"`
+	Restart   int       `json:"restart"` // 0 none, 1 before first pass, 2 before first pass + one finalize, 3 between passes
 	Specs     []c37Spec `json:"specs,omitempty"`
 }
 
@@ -212,6 +213,8 @@ type c37Stats struct {
 	rejCommitted, rejBalance, rejStep, cutByLimit       int64
 	cumulativeMattered, creditMattered, round2Reselects int64
 	outcomes                                            map[string]struct{}
+	byRestart                                           [4]int64
+	committedEarlierLife                                int64
 }
 
 type c37Ctx struct {
@@ -239,20 +242,53 @@ func (m *c37Model) apply(t *c37Tx) {
 
 func c37InWindow(ts int64) bool { return ts > c37BTS-c37Th && ts <= c37BTS+c37Th }
 
+// c37Node is one "life" of the node's transaction bookkeeping: locator
+// manager, TXID manager and pool on a locator database that survives restarts.
+type c37Node struct {
+	lm   module.LocatorManager
+	tim  TXIDManager
+	pool *TransactionPool
+}
+
+func (c *c37Ctx) startNode(ldb db.Database) *c37Node {
+	lm, err := txlocator.NewManager(ldb, c.log)
+	if err != nil {
+		panic(err)
+	}
+	tim, _ := NewTXIDManager(lm, NewTimestampChecker(), nil)
+	pool := NewTransactionPool(module.TransactionGroupNormal, c37PoolSize, tim, c37Monitor{}, c.log)
+	return &c37Node{lm, tim, pool}
+}
+
+// stop ends a life: Term waits until every committed locator is in the database.
+func (n *c37Node) stop() { n.lm.Term() }
+
+func (n *c37Node) finalize(w *c37World, height, ts int64, l []module.Transaction, force bool) error {
+	tr := n.tim.NewLogger(module.TransactionGroupNormal, height, ts)
+	if _, err := tr.Add(transaction.NewTransactionListFromSlice(w.dbase, l), force); err != nil {
+		return err
+	}
+	return tr.Commit()
+}
+
+const (
+	c37NoRestart           = 0
+	c37RestartBefore       = 1 // restart after the pre-committed block, before the first Candidate pass
+	c37RestartThenFinalize = 2 // same, and the new life finalizes exactly one (empty) block before the pass
+	c37RestartBetween      = 3 // restart between the two Candidate passes
+)
+
+var c37RestartName = []string{"none", "before-first-pass", "before-first-pass+one-finalize", "between-passes"}
+
 func (c *c37Ctx) runCase(w *c37World, cs c37Case) {
 	r, f := c.r, c.f
 	r.Eval(1)
 	for _, i := range cs.Seq {
 		cs.Specs = append(cs.Specs, f.txs[i].spec)
 	}
-	logger := c.log
-	lm, err := txlocator.NewManager(db.NewMapDB(), logger)
-	if err != nil {
-		panic(err)
-	}
-	defer lm.Term()
-	tim, _ := NewTXIDManager(lm, NewTimestampChecker(), nil)
-	pool := NewTransactionPool(module.TransactionGroupNormal, c37PoolSize, tim, c37Monitor{}, logger)
+	ldb := db.NewMapDB() // locator database: survives restarts
+	node := c.startNode(ldb)
+	defer func() { node.stop() }()
 
 	committed := map[string]bool{}
 	if len(cs.Committed) > 0 {
@@ -261,25 +297,47 @@ func (c *c37Ctx) runCase(w *c37World, cs c37Case) {
 			l = append(l, f.txs[i].tx)
 			committed[f.txs[i].id] = true
 		}
-		tr := tim.NewLogger(module.TransactionGroupNormal, c37Height-1, c37BTS-1000)
-		if _, err := tr.Add(transaction.NewTransactionListFromSlice(w.dbase, l), true); err != nil {
-			panic(err)
-		}
-		if err := tr.Commit(); err != nil {
+		if err := node.finalize(w, c37Height-2, c37BTS-1000, l, true); err != nil {
 			panic(err)
 		}
 	}
+	if cs.Restart == c37RestartBefore || cs.Restart == c37RestartThenFinalize {
+		node.stop()
+		node = c.startNode(ldb)
+		if cs.Restart == c37RestartThenFinalize {
+			if err := node.finalize(w, c37Height-1, c37BTS-500, nil, true); err != nil {
+				panic(err)
+			}
+		}
+	}
 	inPool := map[string]*c37Tx{}
+	fill := func() bool {
+		for _, i := range cs.Seq {
+			t := f.txs[i]
+			err := node.pool.Add(t.tx, cs.Direct)
+			if node.pool.HasTx(t.tx.ID()) && err == ErrDuplicateTransaction {
+				// re-submission of something already in this pool
+			} else if err != nil {
+				r.Violation("pool-add-failed", fmt.Sprintf("Add returned %v", err), cs)
+				return false
+			}
+			inPool[t.id] = t
+		}
+		return true
+	}
+	// duplicate Add must be refused (only meaningful for repeated elements)
+	seenAdd := map[string]bool{}
 	for _, i := range cs.Seq {
 		t := f.txs[i]
-		err := pool.Add(t.tx, cs.Direct)
-		if _, dup := inPool[t.id]; dup {
+		err := node.pool.Add(t.tx, cs.Direct)
+		if seenAdd[t.id] {
 			if err != ErrDuplicateTransaction {
 				r.Violation("pool-accepts-duplicate-add", fmt.Sprintf("second Add of the same transaction returned %v", err), cs)
 			}
 		} else if err != nil {
 			r.Violation("pool-add-failed", fmt.Sprintf("Add returned %v", err), cs)
 		}
+		seenAdd[t.id] = true
 		inPool[t.id] = t
 	}
 
@@ -288,35 +346,41 @@ func (c *c37Ctx) runCase(w *c37World, cs c37Case) {
 		wc := w.freshContext()
 		var txs []module.Transaction
 		var size int
-		if p := ev.Catch(func() { txs, size = pool.Candidate(wc, cs.MaxBytes, cs.MaxCount) }); p != "" {
+		if p := ev.Catch(func() { txs, size = node.pool.Candidate(wc, cs.MaxBytes, cs.MaxCount) }); p != "" {
 			r.Violation(fmt.Sprintf("candidate-panics/round%d", round), p, cs)
 			return
 		}
-		sel := c.checkBlock(w, tim, cs, round, txs, size, inPool, committed)
+		sel := c.checkBlock(w, node.tim, cs, round, txs, size, inPool, committed)
 		if sel == nil {
 			return
 		}
 		outcome = append(outcome, strings.Join(sel, ","))
-		if round == 2 || len(txs) == 0 {
+		if round == 2 || (len(txs) == 0 && cs.Restart != c37RestartBetween) {
 			break
 		}
 		// Another proposer's block with exactly these transactions gets
 		// finalized (ids committed through the real tracker); our pool is not
 		// told to remove them. Proposing again must not re-select them.
-		tr := tim.NewLogger(module.TransactionGroupNormal, c37Height, c37BTS)
-		if _, err := tr.Add(transaction.NewTransactionListFromSlice(w.dbase, txs), false); err != nil {
+		if err := node.finalize(w, c37Height, c37BTS, txs, false); err != nil {
 			// already reported by checkBlock
 			return
-		}
-		if err := tr.Commit(); err != nil {
-			panic(err)
 		}
 		for _, t := range txs {
 			committed[string(t.ID())] = true
 		}
+		if cs.Restart == c37RestartBetween {
+			// the node goes down and comes back on the same database; the
+			// same transactions are delivered to it again
+			node.stop()
+			node = c.startNode(ldb)
+			if !fill() {
+				return
+			}
+		}
 	}
 	c.stats.mu.Lock()
 	c.stats.outcomes[strings.Join(outcome, "|")] = struct{}{}
+	c.stats.byRestart[cs.Restart]++
 	c.stats.mu.Unlock()
 }
 
@@ -336,7 +400,7 @@ func (c *c37Ctx) checkBlock(w *c37World, tim TXIDManager, cs c37Case, round int,
 			s := c.f.txs[i].spec
 			fmt.Fprintf(&b, "[#%d %s->%s v=%d ts=bts%+d step=%d] ", i, s.From, s.To, s.Value, s.TS-c37BTS, s.Step)
 		}
-		fmt.Fprintf(&b, "\n committed=%v maxBytes=%d maxCount=%d direct=%v %s\n selected: ", cs.Committed, cs.MaxBytes, cs.MaxCount, cs.Direct, rd)
+		fmt.Fprintf(&b, "\n committed=%v maxBytes=%d maxCount=%d direct=%v restart=%s %s\n selected: ", cs.Committed, cs.MaxBytes, cs.MaxCount, cs.Direct, c37RestartName[cs.Restart], rd)
 		for _, t := range txs {
 			if u := inPool[string(t.ID())]; u != nil {
 				fmt.Fprintf(&b, "#%d ", u.spec.Nonce)
@@ -375,7 +439,7 @@ func (c *c37Ctx) checkBlock(w *c37World, tim TXIDManager, cs c37Case, round int,
 		}
 		// (2) not included before
 		if committed[u.id] {
-			r.Violation("selected-already-committed/"+rd, desc(), cs)
+			r.Violation("selected-already-committed/restart="+c37RestartName[cs.Restart]+"/"+rd, desc(), cs)
 			return nil
 		}
 		// (3) affordable given everything selected before it (harness model)
@@ -462,6 +526,9 @@ func (c *c37Ctx) checkBlock(w *c37World, tim TXIDManager, cs c37Case, round int,
 			st.rejFuture++
 		case committed[id]:
 			st.rejCommitted++
+			if cs.Restart != c37NoRestart {
+				st.committedEarlierLife++
+			}
 		case u.spec.Step < c37MinStep:
 			st.rejStep++
 		case !model.affordable(u):
@@ -499,7 +566,7 @@ func TestVerifC37(t *testing.T) {
 	r.Rule("every insertion sequence (with repetition) of length 1..L over a fixed universe of real signed v3 transactions " +
 		"(3 senders incl. an unfunded one, recipients incl. the sender itself (self transfer with value, both tiers), values {0, half, balance-fee, balance}, timestamps {bts-th, bts-th+1, bts-1, bts, bts+1, bts+th, bts+th+1}, stepLimit {min-1, min}) " +
 		"x pre-committed subset {none, each single distinct tx, all} x limits {none, maxCount 1, maxCount 2, maxBytes = first tx, first tx+1, first two} x direct {true,false} (length-4 sequences: committed {none, all}, limits {none, maxCount 2}); " +
-		"each case: Candidate, validate as a block, commit the selection elsewhere, Candidate again; non-trivial = distinct case")
+		"each case: Candidate, validate as a block, commit the selection elsewhere, Candidate again; RESTART dimension (every sequence x committed subset x limits {none, maxCount 1}): the pre-committed block is finalized by one life of the node (real TXIDManager + locator manager on a database), then a NEW locator manager/TXIDManager/pool is started on the same database before the first pass, or before it plus exactly one finalized empty block, or between the two passes (pool refilled with the same transactions); non-trivial = distinct case")
 	r.Assume("the pool holds only signature-verified transactions of the right network (that is what TransactionManager.Add guarantees)",
 		"the asynchronous `go tp.dropTransactions(dropped)` in Candidate is run synchronously (overlay rewrite of that one statement) so that the second Candidate call is deterministic",
 		"state fixture: step price 10, default step cost 100, threshold 3 ms, two funded senders (10000) and one unfunded; no contracts, no data payloads",
@@ -569,6 +636,23 @@ func TestVerifC37(t *testing.T) {
 				}
 			}
 		}
+		// restart dimension: every committed subset again, limits {none, maxCount 1}
+		// (length 4: {none}), restart before the first pass (needs a
+		// pre-committed block), the same plus one finalize, and between the passes
+		rlimits := [][2]int{{0, 0}, {0, 1}}
+		if len(s) == 4 {
+			rlimits = rlimits[:1]
+		}
+		for _, cm := range commits {
+			for _, lim := range rlimits {
+				for _, mode := range []int{c37RestartBefore, c37RestartThenFinalize, c37RestartBetween} {
+					if len(cm) == 0 && mode != c37RestartBetween {
+						continue
+					}
+					cases = append(cases, c37Case{Tier: r.Tier(), Seq: s, Committed: cm, MaxBytes: lim[0], MaxCount: lim[1], Direct: true, Restart: mode})
+				}
+			}
+		}
 		return true
 	})
 	r.Set("universe", n)
@@ -602,7 +686,7 @@ func TestVerifC37(t *testing.T) {
 				if p := ev.Catch(func() { c.runCase(w, cs) }); p != "" {
 					r.Violation("harness-or-code-panic", p, cs)
 				}
-				r.Nontrivial(fmt.Sprintf("%v|%v|%d|%d|%v", cs.Seq, cs.Committed, cs.MaxBytes, cs.MaxCount, cs.Direct))
+				r.Nontrivial(fmt.Sprintf("%v|%v|%d|%d|%v|%d", cs.Seq, cs.Committed, cs.MaxBytes, cs.MaxCount, cs.Direct, cs.Restart))
 				nmu.Lock()
 				done++
 				doneByLen[len(cs.Seq)]++
@@ -625,10 +709,13 @@ func TestVerifC37(t *testing.T) {
 	r.Set("left_out_only_because_of_cumulative_debit", st.cumulativeMattered)
 	r.Set("selected_only_thanks_to_earlier_credit", st.creditMattered)
 	r.Set("distinct_outcomes", len(st.outcomes))
+	r.Set("cases_by_restart_mode", map[string]int64{"none": st.byRestart[0], "before-first-pass": st.byRestart[1], "before-first-pass+one-finalize": st.byRestart[2], "between-passes": st.byRestart[3]})
+	r.Set("left_out_committed_in_an_earlier_life", st.committedEarlierLife)
 	if exhaustive {
 		r.Sanity(st.selected > 0 && st.rejExpired > 0 && st.rejFuture > 0 && st.rejCommitted > 0 && st.rejStep > 0 && st.rejBalance > 0 && st.cutByLimit > 0,
 			"every rejection reason must occur: %+v", map[string]int64{"sel": st.selected, "exp": st.rejExpired, "fut": st.rejFuture, "com": st.rejCommitted, "step": st.rejStep, "bal": st.rejBalance, "cut": st.cutByLimit})
 		r.Sanity(st.cumulativeMattered > 0 && st.creditMattered > 0, "cumulative effects must matter: debit=%d credit=%d", st.cumulativeMattered, st.creditMattered)
+		r.Sanity(st.byRestart[1] > 0 && st.byRestart[2] > 0 && st.byRestart[3] > 0 && st.committedEarlierLife > 0, "restart dimension vacuous: %v %d", st.byRestart, st.committedEarlierLife)
 		r.Sanity(len(st.outcomes) > 20, "too few distinct outcomes: %d", len(st.outcomes))
 	}
 	for _, i := range []int{0, len(cases) / 2, len(cases) - 1} {
